@@ -9,6 +9,12 @@
    List::insert_all / remove_range (push, insert, pop, remove, clear are instances) issued at ANY nesting depth through
    get_mut / get_exclusive on every list of unsized elements on the way: the machine succeeds exactly when the owned
    model does, every ancestor header / offset table / live pointer is updated, and every observation agrees.
+   The same for the FULL operation set (C01_all_ops_...): in-place stores (List / RemainingBytes index_mut),
+   RemainingBytes::set_len, and the element-level operations of lists of unsized elements - insert of default-initialised
+   elements, remove_range, clear - with their offset-table surgery, again at any depth.  C01_dispatcher_tie connects the
+   functions the theorems are about with `exec`, the dispatcher the extracted runner executes in the correspondence check.
+   NOT covered by a theorem: keyed insertion of the Map / Set / UnsizedMap views (binary search + insert), String, non-default
+   initialisers, whole-value replacement, enums (correspondence only).
    Also (named ..._flat, the earlier special case): the full refinement for FLAT shapes - generated structs whose fields are
    fixed-size values, lists of any element type and prefix width, and a trailing RemainingBytes - under
    histories of insert_all / remove_range (push, insert, pop, remove, clear are instances) with interleaving
@@ -19,6 +25,7 @@ From SF Require Import Base.Prelude Gen.Generated Unsized.Types Unsized.Parse Un
 From SF Require Import Unsized.Proofs.EncodeParse Unsized.Proofs.Mem Unsized.Proofs.Notify Unsized.Proofs.Flat.
 From SF Require Import Unsized.Proofs.Layout Unsized.Proofs.Observe Unsized.Proofs.Path Unsized.Proofs.Context Unsized.Proofs.FocusOps
   Unsized.Proofs.NotifyInside Unsized.Proofs.Resize Unsized.Proofs.GenOps Unsized.Proofs.History.
+From SF Require Import Unsized.Run Unsized.Proofs.Init Unsized.Proofs.History2 Unsized.Proofs.ExecTie.
 
 (* one operation: same success, and the new machine state represents the owned model's new value *)
 Theorem C01_flat_step_refines :
@@ -165,6 +172,53 @@ Example C01_nonvacuous_general :
   match get_ptr true t (m_mem s) 0 (m_len s) with
   | Ok (top, _) =>
       match mrunG true t s top h with
+      | Ok (s', top') => ztake (m_len s') (m_mem s') = encode t v' /\ owned_ptr true t (m_mem s') top' = Ok v' /\ top_check s' top' = true
+      | _ => False
+      end
+  | _ => False
+  end.
+Proof. vm_compute. repeat split; reflexivity. Qed.
+
+(* ---------------------------------------------------------------------------------------------- *)
+(* the full operation set, any depth                                                                *)
+Theorem C01_all_ops_step_refines :
+  forall ovf t v s top pi0 o v',
+    RepF pi0 t v s top -> m_refuse s <> 1 -> ostepX (m_cap s) t v o = Some v' ->
+    exists s' top', mstepX ovf t s top o = Ok (s', top', []) /\ RepF (xfocus o) t v' s' top' /\
+                    m_cap s' = m_cap s /\ m_refuse s' = m_refuse s.
+Proof. exact xstep_refines. Qed.
+
+Theorem C01_all_ops_run_refines :
+  forall ovf t h v s top pi0 v',
+    RepF pi0 t v s top -> m_refuse s <> 1 -> orunX (m_cap s) t v h = Some v' ->
+    exists s' top' pi', mrunX ovf t s top h = Ok (s', top') /\ RepF pi' t v' s' top' /\ m_cap s' = m_cap s.
+Proof. exact xrun_refines. Qed.
+
+(* the dispatcher of the extracted runner (Run.exec, what the correspondence check executes) returns exactly what the
+   descent followed by the operation returns *)
+Theorem C01_dispatcher_tie :
+  forall ovf t v s top o r,
+    RepF [] t v s top ->
+    (exists X xv, resolve t v (focus_of o) = Some (X, xv) /\ (exists c lw, X = TList c lw)) ->
+    mstepG ovf t s top o = Ok r ->
+    forall fuel, (length (focus_of o) < fuel)%nat -> exec fuel ovf t s top [] (enc_op o) = Ok r.
+Proof. exact exec_tie_ok. Qed.
+
+Example C01_nonvacuous_all_ops :
+  let et := TStruct [TFixed (FAny 2); TList (FAny 1) 1] in
+  let t := TStruct [TList (FAny 1) 4; TUList et 0; TUList (TUList (TList (FAny 1) 4) 0) 0; TRem] in
+  let e x y := VStruct [VBytes [x; x]; VList y] in
+  let v := VStruct [VList [[1]]; VUList [([], e 3 [[5]; [6]]); ([], e 4 [])];
+                    VUList [([], VUList [([], VList [[1]; [2]])])]; VBytes [9]] in
+  let s := mkMach (encode t v ++ zrepeat 0 10240) (zlen (encode t v)) 0 0 in
+  let h := [XUInsert [SF 1] 1 2; XList (GInsert [SF 1; SE 1; SF 1] 0 [[7]]); XWrite [SF 1; SE 0; SF 1] 1 [8];
+            XUInsert [SF 2; SE 0] 0 1; XList (GInsert [SF 2; SE 0; SE 0] 0 [[4]; [4]]); XRemLen [SF 3] 3;
+            XRemWrite [SF 3] 2 5; XURemove [SF 1] 2 4; XUClear [SF 2; SE 0]; XRemLen [SF 3] 1] in
+  let v' := VStruct [VList [[1]]; VUList [([], e 3 [[5]; [8]]); ([], e 0 [[7]])]; VUList [([], VUList [])]; VBytes [9]] in
+  orunX (m_cap s) t v h = Some v' /\
+  match get_ptr true t (m_mem s) 0 (m_len s) with
+  | Ok (top, _) =>
+      match mrunX true t s top h with
       | Ok (s', top') => ztake (m_len s') (m_mem s') = encode t v' /\ owned_ptr true t (m_mem s') top' = Ok v' /\ top_check s' top' = true
       | _ => False
       end
